@@ -468,3 +468,38 @@ func H_C15_interdependent_callbacks() {
 	}
 	verifReach("end")
 }
+
+// A derived object that overrides Get (it decorates what it returns): whatever ForEach/Map hand to the
+// callback, the async variants hand over the same.
+type hDecoratingObj struct {
+	Object
+}
+
+func (ego *hDecoratingObj) Get(key string) any {
+	if ego.Object.TypeOf(key) == TypeInt {
+		return ego.Object.GetInt(key) + 1000
+	}
+	return ego.Object.Get(key)
+}
+
+func H_C15_derived_overriding_get() {
+	x := nondetInt()
+	verifAssume(verifAnd(x >= 0, x < 100))
+	d := &hDecoratingObj{Object: NewObject("a", x, "b", "s")}
+	d.Init(d)
+	var mu sync.Mutex
+	seq := map[string]any{}
+	d.ForEach(func(k string, v any) { seq[k] = v })
+	seqM := d.Map(func(k string, v any) any { return v })
+	verifSchedAll(0)
+	asy := map[string]any{}
+	d.ForEachAsync(func(k string, v any) {
+		mu.Lock()
+		asy[k] = v
+		mu.Unlock()
+	})
+	asyM := d.MapAsync(func(k string, v any) any { return v })
+	verifAssert(len(seq) == 2 && len(asy) == 2 && seq["a"] == asy["a"] && seq["b"] == asy["b"], "ForEachAsync passes each key with the value ForEach passes")
+	verifAssert(asyM.Count() == seqM.Count() && asyM.TypeOf("a") == seqM.TypeOf("a") && hSameResult(asyM.String(), seqM.String()), "MapAsync returns exactly what Map returns for the same pure function")
+	verifReach("end")
+}
